@@ -542,7 +542,7 @@ def run_main(chk, wd):
     chk.obligation('translator: nsdict is injective (prefix:local identifies the qualified name)', m['nsdict_injective'])
     default_styles = m['default_styles']
     # 2 prove
-    chk.prove(modules=['OdfModel.Props.C18', 'OdfModel.XhtmlLemmas', 'OdfModel.XhtmlText', 'OdfModel.XhtmlEscape', 'OdfModel.MoinLemmas'],
+    chk.prove(modules=['OdfModel.Props.C18', 'OdfModel.XhtmlLemmas', 'OdfModel.XhtmlText', 'OdfModel.XhtmlEscape', 'OdfModel.MoinLemmas', 'OdfModel.Props.C18Moin'],
               drivers=['drv_xhtml'])
     chk.notes.append('translate+prove %.1fs' % (time.time() - t0))
     t0 = time.time()
